@@ -29,8 +29,6 @@ abbrev Env := List (Nat × Plus)
 def get (e : Env) (v : Nat) : Option Plus := (e.find? (·.1 == v)).map (·.2)
 def put (e : Env) (v : Nat) (h : Plus) : Env := (v, h) :: e.filter (·.1 != v)
 
-def addAll (h : Plus) (xs : List Nat) : Plus := xs.foldl add h
-
 def addStream (h : Plus) (seed : Nat) (n : Nat) : Plus := Id.run do
   let mut s : UInt64 := UInt64.ofNat seed
   let mut h := h
